@@ -130,8 +130,14 @@ def one_history(args):
     d = os.path.join(wd, "n%d" % seed)
     shutil.rmtree(d, ignore_errors=True)
     gen = noderig.ReqGen(rnd)
+    if variant == "big-values":
+        gen.big_p = 0.08
+        variant = "random"
+        bigv = True
+    else:
+        bigv = False
     seqm = SeqModel()
-    res = {"seed": seed, "snap": snap, "variant": variant, "restarts": 0, "writes": 0, "rejected": 0}
+    res = {"seed": seed, "snap": snap, "variant": "big-values" if bigv else variant, "restarts": 0, "writes": 0, "rejected": 0}
     sess = None
     trace = []
     try:
@@ -332,6 +338,8 @@ def run(tier, seed):
             snap = rnd.choice([5, 8, 13, 25, 40, 60, 10000])
             variant = rnd.choice(["random", "random", "double-restart", "restart-then-more", "concurrent-compaction"])
             jobs.append((wd, seed * 100000 + i, rnd.choice([40, 120, 300]), snap, variant))
+        for i in range(2 if tier == "quick" else 40):
+            jobs.append((wd, seed * 100000 + 50000 + i, 120, [10000, 25][i % 2], "big-values"))
         ic = [(wd, seed * 100000 + 80000 + i, ["most", "half", "all-but-flush"][i % 3]) for i in range(3 if tier == "quick" else 45)]
         results = []
         with ThreadPoolExecutor(max_workers=common.NCPU) as ex:
